@@ -118,7 +118,7 @@ def run(rep):
             items.append({"line": line, "text": text, "cfg": CFG, "lang": "en", "expected": c["expected"], "variant": var, "feat": feat_of(line, text), "class_fn": cls,
                           "radix": True, "nontrivial": line["form"] == "radix_conv" or n >= 2 ** 31})
     forms.replay(rep, items, "c13.gen")
-    random_trace(rep, 3000 if quick else 40000)
+    random_trace(rep, 3000 if quick else 200000)
 
 
 def random_trace(rep, n):
